@@ -188,3 +188,36 @@ json_t *json_deep_copy(const json_t *value)
 	return c;
 }
 void json_delete(json_t *json) { (void)json; }
+
+/* further jansson entry points a restructured jwt_checker_verify may use around the callback
+ * (not used by the pinned code): same tracked-member semantics as stubs/jansson.c */
+static int is_tracked_key(const char *k)
+{
+	return g_json_key != NULL && k != NULL && k[0] == g_json_key[0] && (k[0] == 0 || (k[1] == g_json_key[1] && (k[1] == 0 ||
+	       (k[2] == g_json_key[2] && (k[2] == 0 || k[3] == g_json_key[3])))));
+}
+json_t *json_object(void) { return nondet_bool() ? NULL : mk_node(JSON_OBJECT); }
+json_t *json_object_get(const json_t *object, const char *key)
+{
+	if (object == NULL || key == NULL || object->type != JSON_OBJECT)
+		return NULL;
+	if (is_tracked_key(key))
+		return object->tracked;
+	return nondet_bool() ? NULL : mk_any();
+}
+int json_object_set_new(json_t *object, const char *key, json_t *value)
+{
+	if (object == NULL || key == NULL || value == NULL || object->type != JSON_OBJECT || nondet_bool())
+		return -1;
+	if (is_tracked_key(key))
+		object->tracked = value;
+	return 0;
+}
+int json_object_update(json_t *object, json_t *other)
+{
+	if (object == NULL || other == NULL || object->type != JSON_OBJECT || other->type != JSON_OBJECT || nondet_bool())
+		return -1;
+	if (other->tracked != NULL)
+		object->tracked = other->tracked;
+	return 0;
+}
